@@ -13,7 +13,7 @@ import warnings
 import numpy as np
 
 from ..kit import cal
-from ..kit.core import World, Violation, HarnessError, canon, sha1
+from ..kit.core import World, Violation, HarnessError, canon, sha1, strip_traceback
 from . import series_model as sm
 from .series_model import SM, Exp
 
@@ -75,6 +75,7 @@ OP_WEIGHTS = {
     "stat": 3, "stat0": 1, "mov": 3, "fill": 4, "extrap": 2, "nvar": 2, "change": 3, "binop": 9,
     "scalarop": 4, "unary": 3, "hstack": 4, "ishift": 2, "copy": 3, "replace_where": 2, "mixfreq": 2,
     "describe": 1, "apply": 2, "new_shared": 2, "achange": 2, "convert": 2, "cum": 2, "restart": 2, "shape": 3,
+    "iter_open": 1, "iter_next": 2,
 }
 
 MUTATING = {"set", "shift", "clip", "lay", "elem", "stat", "mov", "fill", "extrap", "nvar", "change",
@@ -199,6 +200,7 @@ class SeriesWorld(World):
         _lazy()
         self.live = {}      # name -> Obj
         self.snaps = {}     # name -> snapshot
+        self.iters = {}     # name -> iteration in flight over a live series (iter_dates_values)
         self.counter = 0
         self.freq = cfg["freq"]
         self._filters = None
@@ -230,12 +232,60 @@ class SeriesWorld(World):
                 continue
             if h not in self.live:
                 return False
+        if step["op"] == "iter_next" and step["args"]["it"] not in self.iters:
+            return False
         return True
 
     def retire(self, handles):
         for h in handles:
             self.live.pop(h, None)
             self.snaps.pop(h, None)
+        for it in [i for i, info in self.iters.items() if info["h"] not in self.live]:
+            self.iters.pop(it, None)
+
+    def finish(self):
+        for it in sorted(self.iters):
+            self._iter_pull(it, 10 ** 6, "finish.iter_next")
+
+    # An iteration over the periods and values of a series is an operation in flight while other steps run (writes to the
+    # same series included): what it yields must be the rows of the series in ONE of the states it had meanwhile.
+    @staticmethod
+    def _rows_of(m):
+        return [(t, [None if math.isnan(x) else float(x) for x in m.get(t)]) for t in m.rows()]
+
+    def _iter_note(self, h):
+        for info in self.iters.values():
+            if info["h"] == h:
+                info["states"].append(self._rows_of(self.live[h].model))
+                self.probes["series_written_under_live_iteration"] += 1
+
+    def _iter_pull(self, it, k, opname):
+        info = self.iters[it]
+        done = False
+        for _ in range(k):
+            try:
+                p, v = next(info["it"])
+            except StopIteration:
+                done = True
+                break
+            except Exception as e:
+                strip_traceback(e)
+                self.iters.pop(it, None)
+                raise Violation("crash", opname, "written" if len(info["states"]) > 1 else "", type(e).__name__,
+                                f"an iteration in flight raised {type(e).__name__}: {str(e)[:120]}")
+            info["got"].append((int(p.serial), [None if math.isnan(x) else float(x) for x in v]))
+        got = info["got"]
+        pred = "written" if len(info["states"]) > 1 else ""
+        if done:
+            self.iters.pop(it, None)
+            if not any(got == st for st in info["states"]):
+                raise Violation("refine", opname, pred, "", f"a completed iteration over periods and values yielded {got[:3]}... ({len(got)} rows), "
+                                f"which is the series in none of the {len(info['states'])} states it had meanwhile")
+            if len(info["states"]) > 1:
+                self.probes["iteration_completed_across_write"] += 1
+        elif not any(got == st[:len(got)] for st in info["states"]):
+            self.iters.pop(it, None)
+            raise Violation("refine", opname, pred, "", f"an iteration in flight has yielded {got[:3]}..., a prefix of the series in none of the states it had meanwhile")
 
     def fingerprint(self):
         return sha1(canon({h: o.model.dump() for h, o in sorted(self.live.items())}))
@@ -643,6 +693,20 @@ class SeriesWorld(World):
             shift = rng.choice(["yoy", "soy", "eopy"])
         return self._with_form(rng, {"op": "change", "args": {"h": h, "fn": rng.choice(sorted(sm.CHANGES)), "shift": shift}})
 
+    def _gen_iter_open(self, actor, val, rng):
+        if len(self.iters) >= 2:
+            return None
+        h = self._pick(rng, actor, lambda o: self._native(o) and o.model.lo is not None and o.model.n > 1)
+        if h is None:
+            return None
+        self.counter += 1
+        return {"op": "iter_open", "args": {"h": h, "it": f"it{self.counter}", "first": rng.choice([0, 1, 2])}}
+
+    def _gen_iter_next(self, actor, val, rng):
+        if not self.iters:
+            return None
+        return {"op": "iter_next", "args": {"it": rng.choice(sorted(self.iters)), "k": rng.choice([1, 1, 2, 1000])}}
+
     def _gen_achange(self, actor, val, rng):
         h = self._pick(rng, actor, self._native)
         if h is None:
@@ -749,7 +813,7 @@ class SeriesWorld(World):
         h = self._pick(rng, actor)
         if h is None:
             return None
-        return {"op": "copy", "out": [self._new_name()], "args": {"h": h}}
+        return {"op": "copy", "out": [self._new_name()], "args": {"h": h, "how": rng.choice(["copy", "copy", "deepcopy", "pickle"])}}
 
     def _gen_replace_where(self, actor, val, rng):
         h = self._pick(rng, actor, self._native)
@@ -877,6 +941,8 @@ class SeriesWorld(World):
             self._isolation(opname, pred, exclude=(recv,))
             self.live[recv].model = model_from_real(real)
             self.snaps[recv] = snapshot(real)
+            if self.iters:
+                self._iter_note(recv)
             return "ok"
         if out is not None:
             if not isinstance(result, ir.Series):
@@ -1324,6 +1390,22 @@ class SeriesWorld(World):
             return self._exec(step, name + ".func", [("recv", h)], lambda: getattr(ir, fn)(o.real, shift), out=step["out"][0], expect=exp)
         return self._exec(step, name + ".method", [("recv", h)], lambda: getattr(o.real, fn)(shift), recv=h, expect=exp)
 
+    def _do_iter_open(self, step, a):
+        h = a["h"]
+        o = self.live[h]
+
+        def thunk():
+            self.iters[a["it"]] = {"it": iter(o.real.iter_dates_values(unpack_singleton=False)), "h": h,
+                                   "states": [self._rows_of(o.model)], "got": []}
+            if a.get("first"):
+                self._iter_pull(a["it"], a["first"], "iter_open")
+        self.probes["iteration_opened"] += 1
+        return self._exec(step, "iter_open", [("recv", h)], thunk)
+
+    def _do_iter_next(self, step, a):
+        info = self.iters[a["it"]]
+        return self._exec(step, "iter_next", [("recv", info["h"])] if info["h"] in self.live else [], lambda: self._iter_pull(a["it"], a["k"], "iter_next"))
+
     def _do_achange(self, step, a):
         h = a["h"]
         o = self.live[h]
@@ -1488,7 +1570,12 @@ class SeriesWorld(World):
         h = a["h"]
         o = self.live[h]
         exp = Exp(o.model.freq, o.model.nv, o.model.cells, desc=o.model.desc)
-        out = self._exec(step, "copy", [("recv", h)], lambda: o.real.copy(), out=step["out"][0], expect=exp)
+        how = a.get("how", "copy")
+        import copy as _cp
+        import pickle as _pk
+        call = {"copy": lambda: o.real.copy(), "deepcopy": lambda: _cp.deepcopy(o.real), "pickle": lambda: _pk.loads(_pk.dumps(o.real)),
+                "func": lambda: ir.copy(o.real) if hasattr(ir, "copy") else o.real.copy()}[how]
+        out = self._exec(step, "copy" if how == "copy" else "copy." + how, [("recv", h)], call, out=step["out"][0], expect=exp)
         new = self.live.get(step["out"][0])
         if new is not None and (new.model.lo, new.model.n) != (o.model.lo, o.model.n):
             raise Violation("refine", "copy", "", "", "copy reports a different span than its source")
